@@ -136,9 +136,13 @@ class Built:
       class P(H.plugs.BasePlug):
         _vf_idx = idx
 
+        _vf_ctor_calls = [0]
+
         def __init__(self):
           log.add('plug_ctor', idx, id(self))
-          if fault == 'ctor_raise':
+          type(self)._vf_ctor_calls[0] += 1
+          if fault == 'ctor_raise' or (fault == 'ctor_raise_once' and
+                                       type(self)._vf_ctor_calls[0] == 1):
             raise RuntimeError('plug %d ctor boom' % idx)
 
         def tearDown(self):
